@@ -267,7 +267,12 @@ class Gen:
             self.emit("op schedat %d %d %s %s %s %d" % (r.randint(0, len(self.runner.tl.tracks) + 1), sid, self.qz(), self.dl(), count, rwd))
         elif kind == "named":
             self.feat.add("named")
-            self.emit("op sched %d %s %s %s 1 %d %d" % (sid, self.qz(), self.dl(), count, r.randint(0, 2), r.choice([1, 1, 1, 0])))
+            # a named track may be one that is kept when done; a later schedule under the same name updates its events and
+            # leaves that choice alone (whatever the re-scheduling call says or leaves to the default)
+            rwd = 0 if r.random() < max(p["p_keep"], 0.25) else 1
+            if not rwd:
+                self.feat.add("keep-when-done")
+            self.emit("op sched %d %s %s %s %d %d %d" % (sid, self.qz(), self.dl(), count, rwd, r.randint(0, 2), r.choice([1, 1, 1, 0])))
         elif kind == "upd":
             self.emit("op upd %d %d %s %s %s" % (self.live_tid(), sid, self.qz(), self.dl(), count))
         elif kind in ("unsched", "mute", "unmute"):
